@@ -102,8 +102,11 @@ func pickProject(r *Rand, corpusShare int) *Project {
 		}
 		for i := 0; i < r.Range(1, 2); i++ {
 			kind := "notation-mix"
-			if r.Chance(1, 3) {
+			switch r.Intn(3) {
+			case 1:
 				kind = "hostile-paths" // unusual URL paths: most of them are accepted, and the exporters turn them into keys
+			case 2:
+				kind = "export-failures" // accepted, but the OpenAPI exporter fails in several ways at once
 			}
 			s += strings.ReplaceAll(defectBlock(kind, 70+i, r), "\n", nl)
 		}
